@@ -102,6 +102,12 @@ def runOp (args impl : List String) : Option (String × String) := do
       else if n "leak" ≠ 0 then "FAIL goroutine-of-the-run-remains"
       else if an "dur" "600" ≤ 10 ∧ n "started" ≠ 0 then "FAIL iteration-started-inside-the-10ms-guard"
       else if an "retmax" "0" > 0 ∧ n "ret" > an "retmax" "0" + max 0 (n "stall") then "FAIL run-did-not-stop-on-time"
+      -- D27: once the limit has been reached (some worker is free to be refused: fewer blocking iterations than workers, and a
+      -- constant rate or users keep asking) the completion timeout runs from there, not from the end of the duration
+      else if blocked ∧ maxit > 0 ∧ n "started" ≥ maxit ∧ an "block" "0" < conc ∧
+          (arg "mode" "constant" = "constant" ∨ arg "mode" "constant" = "users") ∧
+          n "ret" > n "laststart" + an "timeout" "3000" + 1500 + max 0 (n "stall") then
+        "FAIL wait-for-in-flight-iterations-not-bounded-after-the-iteration-limit"
       -- (wall-clock bound: widened by the longest time the harness process itself went unscheduled during the run)
       else if ¬setupFailed ∧ n "laststart" > stopMs + 150 + max 0 (n "stall") then "FAIL iteration-requested-after-triggering-should-have-stopped"
       else if ¬setupFailed ∧ maxit = 0 ∧ n "ret" < stopMs - 2 then "FAIL run-returned-before-the-earliest-stop-condition"
